@@ -72,7 +72,9 @@ class HedIDValidator:
         # todo: If you have a way to know the schema should have 100% ids, you could check for that and flag missing
         new_id = tag_entry.attributes.get(attribute_name, "")
         old_id = None
-        tag_library = tag_entry.has_attribute(HedKey.InLibrary, return_value=True)
+        # The library an entry belongs to is its own inLibrary value.  For tags has_attribute() also gathers
+        # the values of the parent tags ("score,score"), which names no library.
+        tag_library = tag_entry.attributes.get(HedKey.InLibrary)
         if not tag_library:
             tag_library = ""
 
